@@ -434,7 +434,8 @@ def gen_universe(rng: random.Random, saturated: bool = False) -> World:
         t = w.table(spec[0], schema=spec[1], alias=spec[2], ctor_cols=rng.random() < 0.5,
                     note=rng.choice(["", "", "tn", "other note"]), comment=rng.choice([None, None, "tc"]))
         for cn, ct in spec[3]:
-            c = w.column(cn, ct, pk=(cn == "id" and rng.random() < 0.5), note=rng.choice(["", "", "", "cn"]))
+            c = w.column(cn, ct, pk=(cn == "id" and rng.random() < 0.5), note=rng.choice(["", "", "", "cn"]),
+                         default=rng.choice([None, None, None, ["expr", "now()"], "now()", 0, "0"]))
             w.attach_col(t, c)
         tables.append(t)
     # loose columns
@@ -452,7 +453,7 @@ def gen_universe(rng: random.Random, saturated: bool = False) -> World:
         elif mode < 0.7:
             subs = [["expr", "v*2"]]
         elif mode < 0.8:
-            subs = [["str", "id"]]
+            subs = [["str", rng.choice(["id", "v*2"])]]     # a plain string that reads like the expression
         else:
             subs = [["col", rng.choice(allcols)]]
             if own and rng.random() < 0.5:
@@ -523,6 +524,12 @@ def draw_op(rng: random.Random, eng: C09Engine, weights: Dict[str, float]) -> Li
     tables = w.handles("table")
     if k == "add":
         pool = [h for h, d in m.items() if d["kind"] in ("table", "ref", "enum", "group", "sticky", "project")]
+        if db != dbs[0] and rng.random() < 0.4:
+            # fill the second database with look-alikes of what the first one holds (two same-content databases)
+            mirror = [h for h in pool if m[h].get("db") is None and m[h]["kind"] in ("table", "enum") and
+                      any(w.strict(h) == w.strict(x) for x in m[dbs[0]][LISTS[m[h]["kind"]]])]
+            if mirror:
+                return ["add", db, rng.choice(mirror), rng.random() < 0.5]
         if rng.random() < 0.5:
             pool = [h for h in pool if m[h]["kind"] in ("table", "ref")] or pool
         return ["add", db, rng.choice(pool), rng.random() < 0.5]
